@@ -20,6 +20,17 @@ def undecDigits (t : List Nat) : Option Nat :=
   if t.isEmpty || !(t.all isDigit) then none
   else some (t.foldl (fun a c => a * 10 + (c - 48)) 0)
 
+/-- `0` or a digit string without a leading zero -/
+def natLit : List Nat → Bool
+  | [48] => true
+  | c :: cs => (decide (49 ≤ c) && decide (c ≤ 57)) && cs.all isDigit
+  | [] => false
+
+/-- the integer texts that are legal JSON number tokens: `-?(0|[1-9][0-9]*)` -/
+def jsonIntLit : List Nat → Bool
+  | 45 :: ds => natLit ds
+  | ds => natLit ds
+
 def hexChar (n : Nat) : Nat := if n < 10 then 48 + n else 87 + n
 
 /-- `hex.EncodeToString` (lower case) -/
@@ -83,6 +94,28 @@ def b64dec : List Nat → Option (List Nat)
     | _, _, _, _, _ => none
   | _ => none
 
+/-- what the JSON readers do with a `bytes` string: `base64.StdEncoding.DecodeString` — std alphabet (`-`/`_` are errors), padding
+REQUIRED, `\r` and `\n` IGNORED wherever they stand (Go's decoder skips them, also between and after the padding), non-zero trailing
+bits tolerated (not `Strict`), anything after the padding is an error -/
+def b64Read (t : List Nat) : Option (List Nat) := b64dec (t.filter (fun c => c != 10 && c != 13))
+
+/-- upper-case a hex digit (`hex.Decode` accepts both cases) -/
+def hexUp (c : Nat) : Nat := if 97 ≤ c ∧ c ≤ 102 then c - 32 else c
+
+/-- `TraceID/SpanID/ProfileID.MarshalJSON` on the id's byte array `p` — the text between the quotes: `""` for the all-zero id
+(`IsEmpty`), else `marshalJSON` = lower-case `hex.Encode` of all bytes (`pdata/internal/data/{traceid,spanid,profileid,bytesid}.go`) -/
+def idMarshalJSON (p : List Nat) : List Nat := if allZero p then [] else hexEnc p
+
+/-- `(*ID).UnmarshalJSON(data)` for an id type of `n` bytes: `*id = [n]byte{}` then `unmarshalJSON(id[:], data)` — one pair of
+literal quotes stripped, empty ⇒ the zero id stays, `len(dst) != hex.DecodedLen(len(src))` (= `len/2`: an odd length one above `2n`
+passes this test and fails in `hex.Decode`) ⇒ "invalid length", then `hex.Decode` (either case; odd length or a non-hex byte is an
+error). Returns the full `n`-byte array. -/
+def idUnmarshalJSON (n : Nat) (src : List Nat) : Option (List Nat) :=
+  let s := stripQuotes src
+  if s.isEmpty then some (List.replicate n 0)
+  else if n ≠ s.length / 2 then none
+  else hexDec s
+
 /-- the text codecs of the model with the float pair as the only parameter -/
 def mkTxtF (ffmt : Nat → List Nat) (fparse : List Nat → Option Nat) : Txt where
   dec := decDigits
@@ -90,7 +123,7 @@ def mkTxtF (ffmt : Nat → List Nat) (fparse : List Nat → Option Nat) : Txt wh
   ffmt := ffmt
   fparse := fparse
   b64 := b64enc
-  unb64 := b64dec
+  unb64 := b64Read
   hex := hexEnc
   unhex := hexDec
 
